@@ -228,6 +228,9 @@ def oracleStep (o : OState S) (σ : State S) (c : Cmd S) (out : Out S) (σ' : St
   | .backward v seed => match H v, out with
     | some h, .ok => (o.pass σ h (seed.bind T), some .ok)
     | _, _ => (o, none)
+  | .backwardc v seed => match H v, out with
+    | some h, .ok => (o.pass σ h (T seed), some .ok)
+    | _, _ => (o, none)
   | .bwd m t => match lookup σ.models m, T t, out with
     | some mr, some target, .scalar _ =>
       -- the loss is the sum of the cost array; the pass runs on the cost node, which is the
